@@ -28,8 +28,8 @@ class Contract:
                  raises=None, modifies=None, loops=None, locals=None,
                  inline=None, externals=None, returns=None, free=None,
                  lets=None, yields=None, variants=None, prop=None, defs=None, instantiate=None,
-                 raises_only_if=None, replay=None, setup=None, pure=False,
-                 ghost_after=None, ghost_entry=None, doc=''):
+                 raises_only_if=None, replay=None, setup=None, pure=False, callee_contracts=None,
+                 ghost_after=None, ghost_entry=None, enclosing=None, doc=''):
         self.qualname = qualname
         self.params = dict(params or {})
         self.requires = _labelled(requires, 'pre')
@@ -56,6 +56,8 @@ class Contract:
         self.pure = pure
         self.ghost_after = ghost_after
         self.ghost_entry = ghost_entry
+        self.callee_contracts = dict(callee_contracts or {})   # context-specific (stronger) contracts of callees
+        self.enclosing = enclosing    # params of the enclosing function: its body is run to bind the closure
         self.doc = doc
 
 
@@ -338,6 +340,9 @@ def verify_function(world, contract, max_paths=4000):
     t0 = time.time()
     try:
         module, owner, node = world.repo.find_function(contract.qualname)
+        if contract.enclosing is not None:
+            enc_q = contract.qualname.rsplit('.<locals>.', 1)[0]
+            contract._enc = world.repo.find_function(enc_q) + (enc_q,)
     except Exception as e:
         res.error = ('missing', 'function %s not found: %s' % (contract.qualname, e))
         return res
@@ -424,6 +429,27 @@ def run_one_path(ex, contract, node, res):
     free_env = {k: v for k, v in env.items() if k in contract.free}
     ex.scopes[0].update({k: v for k, v in env.items() if k not in contract.free})
     ex.closure = [free_env]
+    if contract.enclosing is not None:
+        # bind the closure the way the enclosing function binds it: run its
+        # (straight-line) body on symbolic parameters and take the inner
+        # function object it defines
+        from .executor import Executor
+        emod, eowner, enode, enc_q = contract._enc
+        enc = Executor(ex.world, P, emod, enc_q, eowner, contract, parent=ex)
+        for pname, shape in contract.enclosing.items():
+            v = shape.named('in!' + pname)
+            P._assume_wf(v)
+            enc.scopes[0][pname] = v
+            ex.inputs[pname] = v
+        enc.set_function(enode)
+        try:
+            enc.run_block(enode.body)
+        except Return:
+            pass
+        inner = enc.scopes[0].get(node.name)
+        if not isinstance(inner, VFunc) or inner.node is not node:
+            raise ContractError('%s: enclosing function does not define it at top level' % contract.qualname)
+        ex.closure = [free_env] + list(inner.env)
     ex.set_function(node)
     if contract.setup is not None:
         contract.setup(ex, env)
